@@ -1,5 +1,7 @@
 import CoercionModel.Model.Fix
 import CoercionModel.Model.Attempts
+import CoercionModel.Model.Skeletons
+import CoercionModel.Generated.F10
 set_option linter.unusedSimpArgs false
 /-
   C09 — After a crash, durably finished work is never executed again.
@@ -79,6 +81,15 @@ example : (fixAction { status := .running, attempts := [att .transient 2, att .n
 example : (fixAction { status := .running, attempts := [att .none 0] }).status = .notStarted := by decide
 example : willInvoke { status := .running, attempts := [att .none 0] } = true := by decide
 example : (fixSeq { status := .running, actions := [{ status := .completed }, { status := .running, attempts := [att .none 3] }] }).status = .completed := by
+  decide
+
+/-- the Go functions this property's model mirrors still have the shape the model was written against
+    (control-flow skeletons regenerated from /repo on every run, Model/Skeletons): fixAction, resetAction, fixSeq, fixChecks -/
+theorem facts_skeleton :
+    Generated.F10.fixAction = Skeletons.fixAction ∧
+    Generated.F10.resetAction = Skeletons.resetAction ∧
+    Generated.F10.fixSeq = Skeletons.fixSeq ∧
+    Generated.F10.fixChecks = Skeletons.fixChecks := by
   decide
 
 end Coercion.C09
